@@ -30,6 +30,9 @@ TOPOS = {
     "three_in": {"n": 5, "pipes": [(0, 3), (1, 3), (2, 3), (3, 4)], "feed": {0: 370.0, 1: 340.0, 2: 310.0}, "sinks": {4: 0.6}},
     "deadend": {"n": 4, "pipes": [(0, 1), (1, 2), (1, 3)], "feed": {0: 350.0}, "sinks": {2: 0.3}},
     "parallel": {"n": 4, "pipes": [(0, 1), (1, 2), (1, 2), (2, 3)], "feed": {0: 358.0}, "sinks": {3: 0.4}},
+    # the feeding grid fixes the pressure only, a temperature-fixing grid downstream takes fluid out
+    "absorb": {"n": 3, "pipes": [(0, 1), (1, 2)], "feed": {0: 360.0, 2: 300.0}, "feed_p": {0: 5.0, 2: 4.5},
+               "feed_type": {0: "p", 2: "pt"}, "sinks": {1: 0.1}},
 }
 
 
@@ -73,7 +76,8 @@ def topo_spec(c):
     pt = c["point"]
     ops = [{"op": "junction", "id": "j%d" % i, "pn_bar": 5.0, "tfluid_k": 330.0} for i in range(tp["n"])]
     for k, (j, T) in enumerate(tp["feed"].items()):
-        ops.append({"op": "ext_grid", "id": "eg%d" % k, "junction": "j%d" % j, "p_bar": 5.0, "t_k": T, "type": "pt"})
+        ops.append({"op": "ext_grid", "id": "eg%d" % k, "junction": "j%d" % j, "p_bar": tp.get("feed_p", {}).get(j, 5.0), "t_k": T,
+                    "type": tp.get("feed_type", {}).get(j, "pt")})
     for i, (a, b) in enumerate(tp["pipes"]):
         fa, fb = (b, a) if pt["rev%d" % i] else (a, b)
         dmm = 50.0 + 5 * i
@@ -119,6 +123,8 @@ def run_case(case):
     except Exception as e:
         return {"status": "raised:" + type(e).__name__, "violations": []}
     vs, info = thermal.check_thermal(net, kw.get("ambient_temperature", 293.15), heat_sources=heat_sources)
+    for v in vs:
+        v["tags"]["topo"] = case.get("topo", "loop")
     sig = np.round(net.res_junction.t_k.values, 5).tolist()
     return {"status": "ok", "violations": vs, "nontrivial": any(k.startswith("cooling_law") for k in info),
             "sig": core.jhash(sig), "info": info}
